@@ -174,14 +174,27 @@ func vhPEScenario(prop string) {
 	}
 }
 
+// H08.pe: the image digest is the same for an unsigned PE, its signed form
+// and its re-signed form (second blob of a different padded size); the second
+// signature sits where the first was, the directory entry follows it and the
+// payload equals the original's.
 func VH_C08_PEResign() {
 	vhPEScenario("C08") // vh:require signed resigned
 }
 
+// H01.pe: for every well-formed PE32 image in the model (one section,
+// optional gap after the headers, overlay, optionally already signed; every
+// non-layout byte symbolic) and every signature blob, DigestPE -> MakePatch ->
+// patch applied -> DigestPE succeeds again, finds exactly the embedded blob in
+// the certificate table and recomputes the digest that was signed.
 func VH_C01_PESignVerifies() {
 	vhPEScenario("C01") // vh:require signed
 }
 
+// H03.pe: signing a PE changes only signature metadata: headers (except
+// CheckSum and directory entry 4), section bodies, overlay and existing
+// alignment bytes are byte-identical; the certificate table lands 8-aligned
+// after them.
 func VH_C03_PEPayloadIntact() {
 	vhPEScenario("C03") // vh:require signed
 }
